@@ -64,37 +64,37 @@ macro_rules! ans_inst {
                 (b.into_iter().map(|w| w.to_u128()).collect(), s.to_u128())
             }
             fn enc(&mut self, prec: usize, cdf: &[u64], sym: usize) -> Result<(), String> {
-                match prec { $($P => self.0.encode_symbol(sym, Tab::<$W, $P>::new(cdf)).map_err(enc_err),)* _ => panic!("unsupported precision {}", prec) }
+                match prec { $($P => if crate::tab::narrow::<<$W as crate::tab::NarrowOf>::N, $P>() { self.0.encode_symbol(sym, Tab::<<$W as crate::tab::NarrowOf>::N, $P>::new(cdf)).map_err(enc_err) } else { self.0.encode_symbol(sym, Tab::<$W, $P>::new(cdf)).map_err(enc_err) },)* _ => panic!("unsupported precision {}", prec) }
             }
             fn dec(&mut self, prec: usize, cdf: &[u64]) -> usize {
-                match prec { $($P => self.0.decode_symbol(Tab::<$W, $P>::new(cdf)).unwrap(),)* _ => panic!("unsupported precision {}", prec) }
+                match prec { $($P => if crate::tab::narrow::<<$W as crate::tab::NarrowOf>::N, $P>() { self.0.decode_symbol(Tab::<<$W as crate::tab::NarrowOf>::N, $P>::new(cdf)).unwrap() } else { self.0.decode_symbol(Tab::<$W, $P>::new(cdf)).unwrap() },)* _ => panic!("unsupported precision {}", prec) }
             }
             fn enc_iid_reverse(&mut self, prec: usize, cdf: &[u64], syms: &[usize]) -> Result<(), String> {
-                match prec { $($P => self.0.encode_iid_symbols_reverse(syms, Tab::<$W, $P>::new(cdf)).map_err(enc_err),)* _ => panic!("unsupported precision {}", prec) }
+                match prec { $($P => if crate::tab::narrow::<<$W as crate::tab::NarrowOf>::N, $P>() { self.0.encode_iid_symbols_reverse(syms, Tab::<<$W as crate::tab::NarrowOf>::N, $P>::new(cdf)).map_err(enc_err) } else { self.0.encode_iid_symbols_reverse(syms, Tab::<$W, $P>::new(cdf)).map_err(enc_err) },)* _ => panic!("unsupported precision {}", prec) }
             }
             fn enc_symbols_reverse(&mut self, prec: usize, items: &[(usize, Vec<u64>)]) -> Result<(), String> {
-                match prec { $($P => self.0.encode_symbols_reverse(items.iter().map(|(s, c)| (*s, Tab::<$W, $P>::new(c)))).map_err(enc_err),)* _ => panic!("unsupported precision {}", prec) }
+                match prec { $($P => if crate::tab::narrow::<<$W as crate::tab::NarrowOf>::N, $P>() { self.0.encode_symbols_reverse(items.iter().map(|(s, c)| (*s, Tab::<<$W as crate::tab::NarrowOf>::N, $P>::new(c)))).map_err(enc_err) } else { self.0.encode_symbols_reverse(items.iter().map(|(s, c)| (*s, Tab::<$W, $P>::new(c)))).map_err(enc_err) },)* _ => panic!("unsupported precision {}", prec) }
             }
             fn try_enc_symbols_reverse(&mut self, prec: usize, items: &[(usize, Vec<u64>)], err_at: Option<usize>) -> Result<(), String> {
-                match prec { $($P => self.0.try_encode_symbols_reverse(items.iter().enumerate().map(|(i, (s, c))| if Some(i) == err_at { Err(()) } else { Ok::<_, ()>((*s, Tab::<$W, $P>::new(c))) })).map_err(|e| format!("{:?}", e)),)* _ => panic!("unsupported precision {}", prec) }
+                match prec { $($P => if crate::tab::narrow::<<$W as crate::tab::NarrowOf>::N, $P>() { self.0.try_encode_symbols_reverse(items.iter().enumerate().map(|(i, (s, c))| if Some(i) == err_at { Err(()) } else { Ok::<_, ()>((*s, Tab::<<$W as crate::tab::NarrowOf>::N, $P>::new(c))) })).map_err(|e| format!("{:?}", e)) } else { self.0.try_encode_symbols_reverse(items.iter().enumerate().map(|(i, (s, c))| if Some(i) == err_at { Err(()) } else { Ok::<_, ()>((*s, Tab::<$W, $P>::new(c))) })).map_err(|e| format!("{:?}", e)) },)* _ => panic!("unsupported precision {}", prec) }
             }
             fn enc_symbols(&mut self, prec: usize, items: &[(usize, Vec<u64>)]) -> Result<(), String> {
-                match prec { $($P => self.0.encode_symbols(items.iter().map(|(s, c)| (*s, Tab::<$W, $P>::new(c)))).map_err(enc_err),)* _ => panic!("unsupported precision {}", prec) }
+                match prec { $($P => if crate::tab::narrow::<<$W as crate::tab::NarrowOf>::N, $P>() { self.0.encode_symbols(items.iter().map(|(s, c)| (*s, Tab::<<$W as crate::tab::NarrowOf>::N, $P>::new(c)))).map_err(enc_err) } else { self.0.encode_symbols(items.iter().map(|(s, c)| (*s, Tab::<$W, $P>::new(c)))).map_err(enc_err) },)* _ => panic!("unsupported precision {}", prec) }
             }
             fn try_enc_symbols(&mut self, prec: usize, items: &[(usize, Vec<u64>)], err_at: Option<usize>) -> Result<(), String> {
-                match prec { $($P => self.0.try_encode_symbols(items.iter().enumerate().map(|(i, (s, c))| if Some(i) == err_at { Err(()) } else { Ok::<_, ()>((*s, Tab::<$W, $P>::new(c))) })).map_err(|e| format!("{:?}", e)),)* _ => panic!("unsupported precision {}", prec) }
+                match prec { $($P => if crate::tab::narrow::<<$W as crate::tab::NarrowOf>::N, $P>() { self.0.try_encode_symbols(items.iter().enumerate().map(|(i, (s, c))| if Some(i) == err_at { Err(()) } else { Ok::<_, ()>((*s, Tab::<<$W as crate::tab::NarrowOf>::N, $P>::new(c))) })).map_err(|e| format!("{:?}", e)) } else { self.0.try_encode_symbols(items.iter().enumerate().map(|(i, (s, c))| if Some(i) == err_at { Err(()) } else { Ok::<_, ()>((*s, Tab::<$W, $P>::new(c))) })).map_err(|e| format!("{:?}", e)) },)* _ => panic!("unsupported precision {}", prec) }
             }
             fn enc_iid(&mut self, prec: usize, cdf: &[u64], syms: &[usize]) -> Result<(), String> {
-                match prec { $($P => self.0.encode_iid_symbols(syms, Tab::<$W, $P>::new(cdf)).map_err(enc_err),)* _ => panic!("unsupported precision {}", prec) }
+                match prec { $($P => if crate::tab::narrow::<<$W as crate::tab::NarrowOf>::N, $P>() { self.0.encode_iid_symbols(syms, Tab::<<$W as crate::tab::NarrowOf>::N, $P>::new(cdf)).map_err(enc_err) } else { self.0.encode_iid_symbols(syms, Tab::<$W, $P>::new(cdf)).map_err(enc_err) },)* _ => panic!("unsupported precision {}", prec) }
             }
             fn dec_iid(&mut self, prec: usize, cdf: &[u64], n: usize) -> Vec<usize> {
-                match prec { $($P => self.0.decode_iid_symbols(n, Tab::<$W, $P>::new(cdf)).map(|r| r.unwrap()).collect(),)* _ => panic!("unsupported precision {}", prec) }
+                match prec { $($P => if crate::tab::narrow::<<$W as crate::tab::NarrowOf>::N, $P>() { self.0.decode_iid_symbols(n, Tab::<<$W as crate::tab::NarrowOf>::N, $P>::new(cdf)).map(|r| r.unwrap()).collect() } else { self.0.decode_iid_symbols(n, Tab::<$W, $P>::new(cdf)).map(|r| r.unwrap()).collect() },)* _ => panic!("unsupported precision {}", prec) }
             }
             fn dec_symbols(&mut self, prec: usize, tabs: &[Vec<u64>]) -> Vec<usize> {
-                match prec { $($P => self.0.decode_symbols(tabs.iter().map(|c| Tab::<$W, $P>::new(c))).map(|r| r.unwrap()).collect(),)* _ => panic!("unsupported precision {}", prec) }
+                match prec { $($P => if crate::tab::narrow::<<$W as crate::tab::NarrowOf>::N, $P>() { self.0.decode_symbols(tabs.iter().map(|c| Tab::<<$W as crate::tab::NarrowOf>::N, $P>::new(c))).map(|r| r.unwrap()).collect() } else { self.0.decode_symbols(tabs.iter().map(|c| Tab::<$W, $P>::new(c))).map(|r| r.unwrap()).collect() },)* _ => panic!("unsupported precision {}", prec) }
             }
             fn try_dec_symbols(&mut self, prec: usize, tabs: &[Vec<u64>], err_at: Option<usize>) -> Vec<Result<usize, String>> {
-                match prec { $($P => self.0.try_decode_symbols(tabs.iter().enumerate().map(|(i, c)| if Some(i) == err_at { Err(()) } else { Ok::<_, ()>(Tab::<$W, $P>::new(c)) })).map(|r| r.map_err(|e| format!("{:?}", e))).collect(),)* _ => panic!("unsupported precision {}", prec) }
+                match prec { $($P => if crate::tab::narrow::<<$W as crate::tab::NarrowOf>::N, $P>() { self.0.try_decode_symbols(tabs.iter().enumerate().map(|(i, c)| if Some(i) == err_at { Err(()) } else { Ok::<_, ()>(Tab::<<$W as crate::tab::NarrowOf>::N, $P>::new(c)) })).map(|r| r.map_err(|e| format!("{:?}", e))).collect() } else { self.0.try_decode_symbols(tabs.iter().enumerate().map(|(i, c)| if Some(i) == err_at { Err(()) } else { Ok::<_, ()>(Tab::<$W, $P>::new(c)) })).map(|r| r.map_err(|e| format!("{:?}", e))).collect() },)* _ => panic!("unsupported precision {}", prec) }
             }
             fn into_compressed(self: Box<Self>) -> Words { self.0.into_compressed().unwrap().into_iter().map(|w| w.to_u128()).collect() }
             fn into_binary(self: Box<Self>) -> Result<Words, ()> { self.0.into_binary().map(|v| v.into_iter().map(|w| w.to_u128()).collect()).map_err(|_| ()) }
